@@ -1,0 +1,85 @@
+//! Verification hooks. Only compiled with `--cfg tyberiusprime_pypipegraph2_verif`.
+//!
+//! Nothing in here changes the behaviour of the engine: it offers
+//!  * a `PPGEvaluatorStrategy` whose three decisions are delegated to closures
+//!    (the trait names types of the private `engine` module, so it can not be
+//!    implemented outside this crate),
+//!  * a structured snapshot of the evaluator's internal state,
+//!  * a thread-local log of every job state transition,
+//!  * a re-export of `engine::JobOutputResult` (returned by the public
+//!    `get_job_output`, but otherwise unnameable from outside).
+use crate::engine;
+use crate::PPGEvaluatorStrategy;
+use std::cell::RefCell;
+use std::rc::Rc;
+
+pub use crate::engine::JobOutputResult;
+
+#[derive(Clone, Debug, PartialEq, Eq)]
+pub struct Snapshot {
+    /// (job id, state as Debug string, history_output) in declaration order
+    pub jobs: Vec<(String, String, Option<String>)>,
+    /// (upstream id, downstream id, required, invalidated), sorted
+    pub edges: Vec<(String, String, String, String)>,
+    pub pending_signals: usize,
+    /// 0 = not started, 1 = running, 2 = finished
+    pub started: u8,
+    pub ready_to_run: Vec<String>,
+    pub ready_for_cleanup: Vec<String>,
+}
+
+thread_local! {
+    static LOG: RefCell<Vec<(String, String, String)>> = RefCell::new(Vec::new());
+}
+
+pub fn log_transition(job: &str, from: String, to: String) {
+    LOG.with(|l| l.borrow_mut().push((job.to_string(), from, to)));
+}
+
+/// drain the (thread local) transition log: (job id, from state, to state)
+pub fn take_transitions() -> Vec<(String, String, String)> {
+    LOG.with(|l| std::mem::take(&mut *l.borrow_mut()))
+}
+
+#[allow(clippy::type_complexity)]
+pub struct VerifStrategy {
+    pub present: Rc<dyn Fn(&str) -> bool>,
+    pub altered: Rc<dyn Fn(&str, &str, &str, &str) -> bool>,
+    /// (job id, sorted ids of the direct upstreams) -> input list string
+    pub input_list: Rc<dyn Fn(&str, &[&str]) -> String>,
+}
+
+impl PPGEvaluatorStrategy for VerifStrategy {
+    fn output_already_present(&self, query: &str) -> bool {
+        (self.present)(query)
+    }
+
+    fn is_history_altered(
+        &self,
+        job_id_upstream: &str,
+        job_id_downstream: &str,
+        last_recorded_value: &str,
+        current_value: &str,
+    ) -> bool {
+        (self.altered)(
+            job_id_upstream,
+            job_id_downstream,
+            last_recorded_value,
+            current_value,
+        )
+    }
+
+    fn get_input_list(
+        &self,
+        node_idx: engine::NodeIndex,
+        dag: &engine::GraphType,
+        jobs: &[engine::NodeInfo],
+    ) -> String {
+        let mut ups: Vec<&str> = dag
+            .neighbors_directed(node_idx, petgraph::Direction::Incoming)
+            .map(|i| jobs[i].get_job_id())
+            .collect();
+        ups.sort();
+        (self.input_list)(jobs[node_idx].get_job_id(), &ups)
+    }
+}
